@@ -37,11 +37,11 @@ CHECKS = {
    note="Parallelogram limits are read on the wrapped robot's joints (weaker reading). Singular answers are not compared under CONSTRAINT_CENTERED (reference differs by design)."),
  "C09": dict(engine="E2-graph + E1-lattice", ref="5/C09",
    technique="breadth-first enumeration of every tool/base/frame sequence of length 1..3 over an isometry alphabet; per stack the full delegation matrix of trait entry points is executed and compared with the composed reference",
-   text="258 (quick) / 3615 (thorough) stacks x robots x joint vectors: forward, link poses, singularity, constraints, and the four inverse entry points (round trip through the reference FK, continuation order/representative, J6 contracts bit-exact); LinearAxis (3 axes) and Gantry forward via verification-only constructors.",
+   text="1884 (quick) / 6174 (thorough) stacks x robots x joint vectors x previous vectors {near the solution, CONSTRAINT_CENTERED with off-zero constraint centres, multi-turn}: forward, link poses, singularity, constraints, and the four inverse entry points (round trip through the reference FK, continuation order/representative, J6 contracts bit-exact); LinearAxis (3 axes) and Gantry forward via verification-only constructors.",
    note="5-DOF clauses are evaluated on stacks whose tools/frames are axial, as the property presupposes."),
  "C10": dict(engine="E1-lattice", ref="5/C10",
    technique="bounded-exhaustive enumeration of cell configurations x postures x safety tables x modes x entry points against a brute-force all-pairs oracle with an own triangle-distance; first-collision mode re-run in rayon pools 1..16",
-   text="Synthetic box robot (vertex counts varied so the pre-filter's 'smaller mesh' choice flips) with/without tool and base, 11 environment layouts incl. bodies inside the inflated box of a link and enclosing bodies, 192 postures, tables: touch, 2/5 cm, mixed, per-pair overrides, NEVER_COLLIDES on each candidate pair in both key orders; collision_details/collides/RobotBody::collides/near (with a table different from the body's). All-mode list must equal the oracle set, first-mode a non-empty subset iff the set is non-empty, no-check nothing; pool sizes 1,2,4,8,16 must agree.",
+   text="Synthetic box robot (vertex counts varied so the pre-filter's 'smaller mesh' choice flips) with/without tool and base, 11 environment layouts incl. bodies inside the inflated box of a link and enclosing bodies, 192 postures, tables: touch, 2/5 cm, mixed, per-pair overrides, NEVER_COLLIDES on each candidate pair in both key orders; collision_details/collides/RobotBody::collides/near (with a table different from the body's); plus the bundled RX160 STL meshes in the cell of the crate's example, decided pairwise by parry's exact queries. All-mode list must equal the oracle set, first-mode a non-empty subset iff the set is non-empty, no-check nothing; pool sizes 1,2,4,8,16 must agree.",
    note="The oracle (own f64 segment/triangle code) is cross-checked against parry's exact queries in every run; pairs within 1 mm of their limit are not judged; tasks are assumed atomic (textual audit of collisions.rs each run, exit 2 if it no longer holds)."),
  "C11": dict(engine="E1-lattice", ref="5/C11",
    technique="bounded-exhaustive enumeration of constructors x frames x environments x safety x limits x postures with a differential oracle (ordered filter of the underlying stack's answers)",
@@ -49,11 +49,11 @@ CHECKS = {
    note="collides() itself is tied to the pair oracle by C10. Cases where collisions remove some but not all answers must occur or the run is void."),
  "C12": dict(engine="E1-lattice + E4-sched", ref="5/C12",
    technique="scenario lattice on the real planner with scripted RNG, plus stateless DFS over all (or preemption-bounded) interleavings of the strategy race under a token-passing controller at the stop-flag hook points; rayon runs validated against explored traces",
-   text="E1: ~8.9k scenarios (start, stroke length/shape, check steps, cost limit, recursion depth, include-interpolation, six obstacle layouts, safety, limits): every Ok path is judged for collision freedom (collides + brute-force pairs), limits, start configuration, ordered LAND/TRACE/PARK embedding with poses reproduced by the reference FK, linearity of LIN_INTERP waypoints, transition cost, and absence of LIN_INTERP when not requested. E4: 2-strategy races explored completely, 4-strategy races with preemption bound 1 (thorough 2); success must be schedule independent; 20 rayon runs per scenario in pools 1..16 must reproduce explored per-strategy hook sequences.",
+   text="E1: ~10k scenarios (start, stroke length/shape, check steps, cost limit, recursion depth, include-interpolation, seven obstacle layouts incl. one that blocks an arm branch mid-stroke only, safety, limits) plus ~1k scenarios run one at a time under the event recorder: every Ok path is judged for collision freedom (collides + brute-force pairs), limits, start configuration, ordered LAND/TRACE/PARK embedding with poses reproduced by the reference FK, linearity of LIN_INTERP waypoints, transition cost, and absence of LIN_INTERP when not requested. E4: 2-strategy races explored completely, 4-strategy races (one of them with strategies that really fail mid-stroke) with preemption bound 1 (thorough 2); success must be schedule independent; 20 rayon runs per scenario in pools 1..16 must reproduce explored per-strategy hook sequences.",
    note="RNG draws are scripted to a constant so RRT legs are deterministic; the controller is sequentially consistent (the flag is monotone, see DESIGN 8); the cost clause is judged only when no RRT gap closing can be inside the Cartesian part."),
  "C13": dict(engine="E3-env", ref="5/C13",
    technique="exhaustive tree exploration of scripted sample sequences (ScriptedRng hook) of the real dual-tree RRT, default-first with every deviation at every consumed position; cancellation injected inside every consumed sample",
-   text="Layouts {free, pillar, plates around the tool} x limits x step sizes x try budgets 0..5 (thorough 6) x alphabet of 5 (thorough 7) joint-space samples: every Ok path starts/ends bit-exactly at start/goal, every node is reported free, consecutive nodes are within 3 steps, nodes are within non-wrapping limits; a flag raised before the call gives Err, a flag raised inside sample k lets at most that iteration finish.",
+   text="Layouts {free, pillar, plates around the tool} x limits {wide, window, wrapping, non-wrapping beyond +-pi} x step sizes x try budgets 0..5 (thorough 6) x alphabet of 5 (thorough 7) joint-space samples: every Ok path starts/ends bit-exactly at start/goal, every node is reported free, consecutive nodes are within 3 steps, nodes are within non-wrapping limits; a flag raised before the call gives Err, a flag raised inside sample k lets at most that iteration finish.",
    note="Runs on plain OS threads (the thread-local script must not be clobbered by rayon work stealing); every 16th execution is replayed and compared."),
  "C14": dict(engine="E1-lattice", ref="5/C14",
    technique="bounded-exhaustive enumeration of cells x initial postures x from/to vectors against the 12-candidate definition with the full collision check as oracle; pools 1..16",
@@ -61,7 +61,7 @@ CHECKS = {
    note="The full collision check is tied to the pair oracle by C10."),
  "C15": dict(engine="E1-lattice", ref="5/C15",
    technique="lattice enumeration of postures/stacks/steps; the private Jacobian is reconstructed row by row through the public API and compared with the geometric Jacobian of the reference link model; linear maps decided on a basis",
-   text="J (via torques_from_vector(e_k)) vs axis x lever / axis from FK_ref within eps*reach + 4e-15*reach/eps; J_geo * velocities(X) = X on the 6 basis twists and 2 mixed ones; torques = J_geo^T F; isometry, vector and fixed entry points agree.",
+   text="Robots unconstrained and constrained with each joint exactly on its upper / lower limit; J (via torques_from_vector(e_k)) vs axis x lever / axis from FK_ref within eps*reach + 4e-15*reach/eps; J_geo * velocities(X) = X on the 6 basis twists and 2 mixed ones; torques = J_geo^T F; isometry, vector and fixed entry points agree.",
    note="Postures with condition number >= 1e3 are skipped (counted)."),
  "C16": dict(engine="E1-lattice", ref="5/C16",
    technique="exhaustive enumeration of all 30 (driven, coupled) pairs x scalings x stack variants on the real wrapper against the substitution model",
@@ -77,7 +77,7 @@ CHECKS = {
    note="Relies on rand 0.9's u64 -> f64 mapping ((r >> 12) / 2^52), guarded by the draw-count check."),
  "C19": dict(engine="E1-lattice", ref="5/C19",
    technique="exhaustive enumeration of parameter records, documented syntax variants, all 1-/2-edit deviations of the documented file and all token strings up to a length bound",
-   text="3072 records + the robots axis round-trip through to_yaml/from_yaml_file; 720+ documented-format variants parse to the harness's own expectation; 23k edited documents, 168k (thorough 3.4M) token strings and special byte strings never panic.",
+   text="5184 records (offsets down to 3e-6 rad) + the robots axis round-trip through to_yaml/from_yaml_file; 736 documented-format variants parse to the harness's own expectation; 23k edited documents, 245k (thorough 5.4M) token strings, malformed deg() entries (must be errors), every byte string of length <= 2 and special byte strings never panic.",
    note="J6 sign of a 5-DOF record is not compared (the loader documents that it blocks it)."),
  "C20": dict(engine="E1-lattice", ref="5/C20",
    technique="exhaustive enumeration of generated URDF/xacro descriptions over layout, naming, nesting and joint-order permutations, with rotating sign/limit/copy axes; error-path enumeration",
